@@ -778,6 +778,17 @@ class Executor:
         if m and m.group(1) in ("Add", "Sub", "Mul", "Div", "Rem", "BitAnd", "BitOr", "BitXor", "Shl", "Shr", "Eq", "Ne", "Lt", "Le", "Gt", "Ge",
                                 "AddUnchecked", "SubUnchecked", "MulUnchecked", "ShlUnchecked", "ShrUnchecked"):
             a, b = split_top(m.group(2))
+            fm = re.match(r"^(?:copy|move) (.*)$", a.strip())
+            aty = None
+            if fm:
+                try:
+                    aty = self.type_of_place(fn, self.parse_place(st, fn, fm.group(1), frame), frame)
+                except Untranslatable:
+                    aty = None
+            if (aty or "").strip() in ("f32", "f64") or re.search(r"f(32|64)$", a.strip()) or re.search(r"f(32|64)$", b.strip()):
+                # floating-point arithmetic / comparison: an arbitrary result of the destination's sort (never computed with)
+                put(self.fresh("float:" + dst.key(), dsort or ("bool",)))
+                return
             av = self.operand(st, fn, a, frame)
             bv = self.operand(st, fn, b, frame, av.s if isinstance(av, Val) else None)
             if (not isinstance(av, Val) or not isinstance(bv, Val)) and m.group(1) in ("Eq", "Ne", "Lt", "Le", "Gt", "Ge"):
@@ -839,6 +850,9 @@ class Executor:
                 # scalar reinterpreted as a single-field wrapper (niche-typed Nanoseconds(u32), NonZero..): its only field
                 self.clear_prefix(st, dst.key())
                 st.store[dst.key() + ".0"] = v
+                return
+            if m.group(3) in ("FloatToFloat", "FloatToInt", "IntToFloat") and sort_of_type(m.group(2).strip()) is not None:
+                put(self.fresh("fcast:" + dst.key(), sort_of_type(m.group(2).strip())))      # float conversion: arbitrary value
                 return
             if m.group(3) not in ("IntToInt",):
                 raise Untranslatable("cast kind " + m.group(3) + " of " + rhs[:80])
